@@ -577,6 +577,76 @@ def p_output_stream(wd, backend):
     return [] if o == want else ["unmatched text copied to the output stream (%s): expected %r, got %r" % (backend, want, o[:60])]
 
 
+def p_accessors(wd, backend):
+    """the accessor functions seen from outside yylex: after a token has been returned yyget_text / yyget_leng give that token,
+    yyget_lineno counts, and every yyset_* is read back by its yyget_* (the FILE pointers included)"""
+    r = backend in ('r', 'c99')
+    S = ", s" if r else ""
+    S1 = "s" if r else ""
+    opts = {"nr": "yylineno", "r": "reentrant yylineno", "c99": 'emit="c99" yylineno'}[backend]
+    body = ["#include <stdio.h>", "#include <string.h>", "int main(void) { int bad = 0; FILE *f1 = tmpfile(), *f2 = tmpfile();"]
+    if r:
+        body.append(" yyscan_t s; if (yylex_init(&s)) return 3;")
+    body.append(' yy_scan_string("aab\\nb"' + S + ");")
+    body.append(" if (yylex(%s) != 1) bad |= 1;" % S1)
+    body.append(' if (yyget_leng(%s) != 2 || strcmp(yyget_text(%s), "aa") != 0) bad |= 2;' % (S1, S1))
+    body.append(" if (yylex(%s) != 2 || yyget_leng(%s) != 1) bad |= 4;" % (S1, S1))
+    body.append(" if (yyget_lineno(%s) != 1) bad |= 8;" % S1)
+    body.append(" if (yylex(%s) != 2 || yyget_lineno(%s) != 2) bad |= 16;" % (S1, S1))
+    body.append(" yyset_lineno(41%s); if (yyget_lineno(%s) != 41) bad |= 32;" % (S, S1))
+    body.append(" yyset_in(f1%s); yyset_out(f2%s); if (yyget_in(%s) != f1 || yyget_out(%s) != f2) bad |= 64;" % (S, S, S1, S1))
+    body.append(" yyset_debug(1%s); if (yyget_debug(%s) != 1) bad |= 128; yyset_debug(0%s); if (yyget_debug(%s) != 0) bad |= 128;" % (S, S1, S, S1))
+    if backend == 'r':
+        body.append(" yyset_column(17, s); if (yyget_column(s) != 17) bad |= 256; if (yyget_lineno(s) != 41) bad |= 512;")
+        body.append(" yyset_extra((void *) f1, s); if (yyget_extra(s) != (void *) f1) bad |= 1024;")
+    body.append(' printf("%d\\n", bad); return 0; }')
+    text = spec(opts, "", "\n".join(body))
+    rc, err = flex(wd, text, [])
+    if rc:
+        return ["flex fails: " + err[:200]]
+    rc, e = cc(wd, ["p.c"])
+    if rc:
+        return ["the accessor probe (%s) does not compile: %s" % (backend, (e.strip().splitlines() or ["?"])[0][:200])]
+    rc, o, e2 = run([os.path.join(wd, "p.exe")], cwd=wd, timeout=20)
+    return [] if o.strip() == b"0" else ["accessor functions (%s): checks failed, bit mask %s (1 first token, 2 yyget_text/yyget_leng, 4 second token, "
+                                        "8/16 yyget_lineno, 32 yyset_lineno, 64 yyset_in/out, 128 yyset_debug, 256 yyset_column, 512 column/lineno mixed, "
+                                        "1024 yyset_extra), rc %s" % (backend, o.strip().decode(errors="replace"), rc)]
+
+
+def p_cxx_buffers(wd, _):
+    """the manual's include example in C++: yypush_buffer_state(yy_create_buffer(stream, size)) in an action, yypop_buffer_state()
+    at <<EOF>>; the lexer constructed from stream references; YY_FLUSH_BUFFER-free"""
+    text = r"""%option noyywrap nounput noinput c++
+%{
+#include <iostream>
+#include <sstream>
+#include <string>
+static std::istringstream inc1("one @2 uno"), inc2("two");
+static int depth = 0;
+%}
+%%
+"@1"     { depth++; yypush_buffer_state(yy_create_buffer(&inc1, 16)); }
+"@2"     { depth++; yypush_buffer_state(yy_create_buffer(inc2, 4)); }
+[a-z]+   { std::cout << "<" << yytext << ">"; }
+[ \n]    { }
+<<EOF>>  { if (depth == 0) yyterminate(); depth--; yypop_buffer_state(); }
+%%
+int main() { std::istringstream in("a @1 b"); yyFlexLexer l(in, std::cout); l.yylex(); std::cout << "|"; return 0; }
+"""
+    with open(os.path.join(wd, "p.l"), "w") as f:
+        f.write(text)
+    rc, out, err = run([_FLEX, "-o", "p.cc", "p.l"], cwd=wd, timeout=60)
+    if rc:
+        return ["flex fails: " + err.decode(errors="replace")[:200]]
+    rc, o, e = run(["g++", "-w", "-I" + os.path.dirname(_FLEX), "-o", "p.exe", "p.cc"], cwd=wd, timeout=120)
+    if rc:
+        return ["the C++ include scanner does not compile: " + (e.decode(errors="replace").strip().splitlines() or ["?"])[0][:200]]
+    rc, o, e2 = run([os.path.join(wd, "p.exe")], cwd=wd, timeout=20)
+    want = b"<a><one><two><uno><b>|"
+    return [] if o == want else ["C++ buffer stack (yypush_buffer_state / yypop_buffer_state / yy_create_buffer with a stream pointer and a stream "
+                                 "reference, lexer built from stream references): expected %r, got %r (rc %s)" % (want, o[:80], rc)]
+
+
 def p_cli_vs_option(wd, arg):
     """the same scanner, byte for byte, from --name and from %option name"""
     name, need = arg
@@ -635,6 +705,7 @@ PROBES = [("nodefault", p_nodefault, [(b, h) for b in ("nr", "r", "c99", "cxx") 
                                                    ("header-file", "h.h", "", ["--header-file=h.h"])]),
           ("define", p_define, [None]), ("macro-splices", p_macro_splices, ["nr", "r"]), ("init-extra", p_init_extra, [None]),
           ("output-stream", p_output_stream, ["nr", "nr2", "r", "cxx"]),
+          ("accessors", p_accessors, ["nr", "r", "c99"]), ("cxx-buffers", p_cxx_buffers, [None]),
           ("directives", p_directives, ["array", "pointer", "lex-sizes", "default-name", "default-name-prefix", "default-name-prefix-opt",
                                         "default-name-cxx", "flex++", "outfile-opt"])]
 
